@@ -48,7 +48,7 @@ LIFE_LINK = ["liberasurecode.so.1", "libXorcode.so.1"]
 T_SRCS = ["harness/engine_t.c", "harness/vsched.c", "harness/vh.c", "ref/ref.c"]
 RULE_H = ("explicit-state search over abstract registry states (sequence of live configurations in registry order, <= 4 slots, counter preset or not): every state is "
           "built by its canonical history in a child forked from a pristine process and every operation of the alphabet (create x6, failed create x5, destroy slot, use slot, "
-          "14 error exits per slot, counter preset) is applied to it as real API calls; invariants of the set model are checked after each call, self-loops must leave the "
+          "15 error exits per slot, counter preset) is applied to it as real API calls; invariants of the set model are checked after each call, self-loops must leave the "
           "concrete observation (registry walk, ledger, table pointer) identical, and a state reached by an operation must look exactly like the same state built canonically; "
           "plus an unmerged enumeration of all operation sequences over a 10-letter alphabet up to the stated depth (thorough: two further depths over the six registry-changing letters); states = transitions explored (one per case), "
           "non-trivial = state-changing transition or an operation on a non-empty registry")
